@@ -3,6 +3,7 @@
 package main
 
 import (
+	"encoding/hex"
 	"encoding/json"
 	"fmt"
 	"io"
@@ -14,6 +15,7 @@ import (
 	"unicode"
 
 	shconfig "github.com/indexsupply/shovel/shovel/config"
+	"github.com/indexsupply/shovel/wstrings"
 	cfg "verif/harness/config"
 	"verif/harness/lib"
 )
@@ -25,8 +27,78 @@ From Coq Require Import List NArith String. Import ListNotations. Open Scope N_s
 var metachars = []rune{0, 9, 10, 11, 12, 13, 32, 33, 34, 35, 36, 37, 38, 39, 40, 41, 42, 43, 44, 46, 47, 58, 59, 60, 61, 62, 63, 64,
 	91, 92, 93, 94, 96, 123, 124, 125, 126, 127, 133, 160, 8216, 8217, 8220, 8221, 8232, 8233, 65307, 65287, 65282}
 
+// safeStrings: inputs of the Safe-level comparison.  <valid prefix with
+// non-ASCII letters/digits> + <forbidden character> + <tail>, the mirror
+// shapes, forbidden non-ASCII runes, invalid UTF-8.
+func safeStrings(thorough bool) []string {
+	prefixes := []string{"", "t", "t\u00e9", "\u00df", "\u044f\u044f", "\u4e2d", "a\u0663", "\u00e9_-9"}
+	tails := []string{"", "x", "\u00e9", "(a int); drop table x; --"}
+	var forb []string
+	for c := 0; c < 128; c++ {
+		ch := byte(c)
+		if !(ch >= 'a' && ch <= 'z' || ch >= 'A' && ch <= 'Z' || ch >= '0' && ch <= '9' || ch == '_' || ch == '-') {
+			forb = append(forb, string(rune(c)))
+		}
+	}
+	forb = append(forb, "\u00a0", "\u2028", "\uff1b", "\u2167", "\u2019", "\U0001F600", "\u0085",
+		"\xff", "\xc3", "\xe4\xb8", "\xf0\x9f\x98", "\xc0\xaf", "\xed\xa0\x80")
+	var out []string
+	seen := map[string]bool{}
+	add := func(s string) {
+		if !seen[s] {
+			seen[s] = true
+			out = append(out, s)
+		}
+	}
+	for _, p := range prefixes {
+		add(p) // valid
+		for ti, t := range tails {
+			if !thorough && ti >= 1 && p != "t\u00e9" {
+				continue
+			}
+			add(p + t)
+			for _, f := range forb {
+				add(p + f + t)
+				add(f + p + t) // mirror: the forbidden character first
+			}
+		}
+	}
+	return out
+}
+
+// the rule of wstrings.Safe written independently: every rune (invalid bytes
+// decode to U+FFFD) is a letter, a digit, '_' or '-'
+func safeRef(s string) bool {
+	for _, r := range s {
+		if !(unicode.IsLetter(r) || unicode.IsDigit(r) || r == '_' || r == '-') {
+			return false
+		}
+	}
+	return true
+}
+
+func safeCase(s string) lib.Case {
+	got := wstrings.Safe(s) == nil
+	d := desc{Stream: "safe", Marker: -1, Hex: hex.EncodeToString([]byte(s)), Text: strings.ToValidUTF8(s, "\ufffd")}
+	c := lib.Case{Desc: d, Kind: "safe/rejected", OracleOK: true, Nontrivial: true, Size: 100000 + len(s)} // configurations that reach SQL are the preferred replay
+	if got {
+		c.Kind = "safe/accepted"
+	}
+	if got != safeRef(s) {
+		c.OracleOK = false
+		c.OracleMsg = fmt.Sprintf("wstrings.Safe(%q) accepted=%v but the string %s consist of letters, digits, '_' and '-' only", s, got, map[bool]string{true: "does", false: "does NOT"}[safeRef(s)])
+	}
+	acc := "false"
+	if got {
+		acc = "true"
+	}
+	c.Coq = "CSafe " + cfg.CClasses(s) + " " + cfg.CRunes(s) + " " + acc
+	return c
+}
+
 type desc struct {
-	Stream string `json:"stream"` // class | seed | file-pos | file-rename | dash-pos | dash-rename
+	Hex    string `json:"hex,omitempty"` // safe stream: the input string, hex-encoded
+	Stream string `json:"stream"`        // class | seed | file-pos | file-rename | dash-pos | dash-rename
 	Seed   string `json:"seed,omitempty"`
 	Path   string `json:"path,omitempty"` // string position (pos streams) or identifier (rename streams)
 	Marker int    `json:"marker"`         // index into cfg.Markers, -1 = none
@@ -252,6 +324,7 @@ func srcCase(d desc, marker *cfg.Marker) lib.Case {
 	if marker != nil && marker.Hostile && !o.Quiet && c.OracleOK {
 		c.OracleOK = false
 		c.OracleMsg = fmt.Sprintf("SaveSource with the name %q (outside the alphabet) did not stop at the check: %d statement(s) reached the database, first: %q", name, len(o.AllSQL), o.AllSQL[0])
+		c.Size += 50000 // a failure that shows the SQL text the name reached is the preferred replay
 	}
 	if o.Hung {
 		c.OracleOK = false
@@ -274,6 +347,13 @@ func numIgs(seed string) int {
 func build(d desc) (lib.Case, error) {
 	if d.Stream == "class" {
 		return classCase(), nil
+	}
+	if d.Stream == "safe" {
+		b, err := hex.DecodeString(d.Hex)
+		if err != nil {
+			return lib.Case{}, err
+		}
+		return safeCase(string(b)), nil
 	}
 	seed, ok := cfg.Seeds[d.Seed]
 	if !ok {
@@ -400,13 +480,25 @@ func run(c lib.Cfg) error {
 	// the six basic ones on every position plus two of the others chosen by the seed
 	var k int
 	idxPos := false // the position is a table.index entry: every marker, also in the quick tier
+	// the hostile slot alternates between the four basic hostile markers and the hostile markers
+	// with a non-ASCII prefix (the last marker of the list is the accepted one of that family)
+	hostile := func() int {
+		k++
+		if k%2 == 0 {
+			n := len(cfg.Markers) - 1 - cfg.FirstUniMarker
+			return cfg.FirstUniMarker + (k/2)%n
+		}
+		return (k / 2) % 4
+	}
+	accepted := func() int {
+		safe := []int{4, 5, 7, 17, len(cfg.Markers) - 1}
+		return safe[k%len(safe)]
+	}
 	pick := func() []int {
 		if !c.Thorough() && idxPos {
 			// quick tier, index entry: the three usual markers and every index-entry marker
-			safe := []int{4, 5, 7, 17}
-			k++
-			ms := []int{k % 4, safe[k%len(safe)], rng.Intn(cfg.FirstIdxMarker)}
-			for i := cfg.FirstIdxMarker; i < len(cfg.Markers); i++ {
+			ms := []int{hostile(), accepted(), rng.Intn(cfg.FirstIdxMarker)}
+			for i := cfg.FirstIdxMarker; i < cfg.FirstUniMarker; i++ {
 				ms = append(ms, i)
 			}
 			return ms
@@ -422,11 +514,8 @@ func run(c lib.Cfg) error {
 			}
 			return ms
 		}
-		// one of the four basic hostile markers in rotation, one accepted marker in
-		// rotation, one of all markers chosen by the seed
-		safe := []int{4, 5, 7, 17}
-		k++
-		return []int{k % 4, safe[k%len(safe)], rng.Intn(cfg.FirstIdxMarker)}
+		// one hostile marker, one accepted marker, one of the first markers chosen by the seed
+		return []int{hostile(), accepted(), rng.Intn(cfg.FirstIdxMarker)}
 	}
 	// consistent renames: two markers in the quick tier (one hostile, one accepted)
 	pickRename := func() []int {
@@ -486,6 +575,10 @@ func run(c lib.Cfg) error {
 				}
 			}
 		}
+	}
+	// wstrings.Safe itself against the per-rune model
+	for _, str := range safeStrings(c.Thorough()) {
+		descs = append(descs, desc{Stream: "safe", Marker: -1, Hex: hex.EncodeToString([]byte(str))})
 	}
 	// web.SaveSource: every distinctive marker (and the empty name) as source name
 	for _, sd := range []struct {
